@@ -111,6 +111,11 @@ class ConstructPipeline(RewritePattern):
                 break
             assert next_op is not None
 
+        # nothing may follow the last cluster sync: leftover operations would
+        # stay behind in the loop body and not take part in the pipeline
+        if not isinstance(next_op, scf.YieldOp) or len(current_stage) > 0:
+            return
+
         # a valid pipeline has at least two stages
         if len(stages) < 2:
             return
